@@ -180,7 +180,10 @@ fn run(t: &Tape, want_desc: bool) -> CaseResult {
     let mut s = Src::new(&t.head);
     let mut prof = MIXED.clone();
     prof.max_pairs = 2;
-    let cfg = gen_world_cfg(&mut s, &prof);
+    let mut cfg = gen_world_cfg(&mut s, &prof);
+    // in half of the worlds the factory's chain-level admin - the account that may migrate its code - is
+    // an account of its own, never named owner by anybody
+    cfg.separate_factory_admin = s.bool();
     let mut w = World::build(&cfg).unwrap_or_else(|e| panic!("world build failed (harness): {e}"));
     let mut classes: Vec<&'static str> = vec![];
     let mut log: Vec<Value> = vec![];
@@ -266,8 +269,12 @@ fn run(t: &Tape, want_desc: bool) -> CaseResult {
             if s.bool() {
                 let fcode = base.codes.factory;
                 let factory = base.factory.to_string();
-                // the chain-level admin of the factory is the ORIGINAL owner account
-                let _ = base.exec(Step { sender: original_owner.clone(), call: Call::Migrate { contract: factory, code_id: fcode }, funds: vec![] });
+                // by its chain-level admin: the ORIGINAL owner account, or the separate admin account
+                let admin = base.factory_admin.to_string();
+                let r = base.exec(Step { sender: admin, call: Call::Migrate { contract: factory, code_id: fcode }, funds: vec![] });
+                if r.outcome.is_ok() {
+                    classes.push(if base.cfg.separate_factory_admin { "state:after-factory-migration-by-a-separate-admin" } else { "state:after-factory-migration-by-the-owner" });
+                }
             }
             if migrated > 0 {
                 classes.push("state:after-pair-migration");
@@ -292,6 +299,10 @@ fn run(t: &Tape, want_desc: bool) -> CaseResult {
             Role { name: "rogue-cw20(impersonated)", addr: base.proxy.to_string(), via_proxy: false },
             Role { name: "rogue-cw20(via-forward)", addr: base.actors[0].to_string(), via_proxy: true },
         ];
+        if base.cfg.separate_factory_admin {
+            // (may migrate the factory's code; was never made its owner)
+            roles.push(Role { name: "factory-chain-admin", addr: base.factory_admin.to_string(), via_proxy: false });
+        }
         if transferred {
             roles.push(Role { name: "former-owner", addr: original_owner.clone(), via_proxy: false });
             for f in &former {
@@ -452,7 +463,7 @@ pub fn suites() -> Vec<Suite> {
     }]
 }
 
-pub const RULE: &str = "case = generated world (1-2 pairs of generated kinds, liquidity seeded, half of the provider's LP tokens donated to the pair so that a forged withdraw hook has something to burn, router funded) x {before, after UpdateConfig{owner: actor3}} x ALL 9 messages (factory UpdateConfig / CreatePair / AddNativeTokenDecimals / MigratePair; pair UpdateNativeTokenDecimals / Receive(WithdrawLiquidity) / Receive(Swap); router ExecuteSwapOperation / AssertMinimumReceive) with generated arguments x ALL caller roles (current owner, former owner(s) - a third of the transferred states move ownership on a second time -, addresses that merely resemble the owner's, and for every cell addresses that merely resemble an authorised sender of that cell (extended by a character, shortened by one), stranger, fresh address, factory, router, every pair, every LP token, every asset token, the rogue cw20 contract both impersonated and through its forwarding entry point; additionally every pair/router message is smuggled as the payload of the contract's public cw20 Receive entry by a stranger, the rogue contract, an asset token and an LP token, with the envelope's free sender field set to the authorised address or to the caller); a cell is judged when the authorised twin succeeded on a fork of the same state (or when no caller can be authorised at all): the role under test must fail and leave the chain byte-identical; non-trivial = a case with at least one judged cell; distinct = hash of the tape; the class histogram lists every cell with its count";
+pub const RULE: &str = "case = generated world (1-2 pairs of generated kinds, liquidity seeded, half of the provider's LP tokens donated to the pair so that a forged withdraw hook has something to burn, router funded) x {before, after UpdateConfig{owner: actor3}} x ALL 9 messages (factory UpdateConfig / CreatePair / AddNativeTokenDecimals / MigratePair; pair UpdateNativeTokenDecimals / Receive(WithdrawLiquidity) / Receive(Swap); router ExecuteSwapOperation / AssertMinimumReceive) with generated arguments x ALL caller roles (current owner, former owner(s) - a third of the transferred states move ownership on a second time -, addresses that merely resemble the owner's, and for every cell addresses that merely resemble an authorised sender of that cell (extended by a character, shortened by one), stranger, fresh address, factory, router, every pair, every LP token, every asset token, the rogue cw20 contract both impersonated and through its forwarding entry point, and - in the half of the worlds where the factory's chain-level admin is an account of its own, which migrates the factory in some states - that admin; additionally every pair/router message is smuggled as the payload of the contract's public cw20 Receive entry by a stranger, the rogue contract, an asset token and an LP token, with the envelope's free sender field set to the authorised address or to the caller); a cell is judged when the authorised twin succeeded on a fork of the same state (or when no caller can be authorised at all): the role under test must fail and leave the chain byte-identical; non-trivial = a case with at least one judged cell; distinct = hash of the tape; the class histogram lists every cell with its count";
 pub const ASSUMPTIONS: &[&str] = &[
     "cw-multi-test lets any address be the sender of a message: contract roles are exercised by impersonation, the rogue contract additionally through its own Forward entry point",
     "for pair.Receive(Swap) every cw20 asset of the pair counts as authorised by the statement; whether the hook's named asset matches the sender is C02's subject",
